@@ -519,3 +519,70 @@ func ruleTRIMFLOOR(c *Ctx) {
 		c.add(rule, "count:", token.NoPos, CountDropped, true, "only %d trailing-empty loops found (>= 4 confirmed by hand)", n)
 	}
 }
+
+// CODEC(default-fallback): in the displacement encoding a row stores only the cells that differ
+// from the row's default; a reader finds a cell at base+column only if tmCheck confirms the
+// owner, and otherwise the value IS the default (tmDefAct[state] for terminals, tmDefGoto[nt]
+// for nonterminals). Optimize may choose any value as default - with minimizeDFA a shift is
+// often the most common cell - so every decode site must read the default table on the failing
+// edge of the owner test; answering "no entry" there drops real transitions.
+func ruleDEFAULTFALLBACK(c *Ctx) {
+	const rule = "CODEC(default-fallback)"
+	n := 0
+	for _, rel := range parserPkgs {
+		for _, f := range c.SrcFuncs(rel) {
+			ord := map[string]int{}
+			for _, b := range f.Blocks {
+				if len(b.Instrs) == 0 {
+					continue
+				}
+				ifi, ok := b.Instrs[len(b.Instrs)-1].(*ssa.If)
+				if !ok {
+					continue
+				}
+				bo, ok := ifi.Cond.(*ssa.BinOp)
+				if !ok || bo.Op != token.EQL {
+					continue
+				}
+				if !strings.Contains(vpath(bo.X), "tmCheck[") && !strings.Contains(vpath(bo.Y), "tmCheck[") {
+					continue
+				}
+				n++
+				key := ordKey(ord, ssaFuncKey(f)+":owner-test")
+				fb := b.Succs[1]
+				reads := false
+				// the failing edge: the default table is read before any return/merge
+				seen := map[*ssa.BasicBlock]bool{}
+				work := []*ssa.BasicBlock{fb}
+				for len(work) > 0 && !reads {
+					x := work[len(work)-1]
+					work = work[:len(work)-1]
+					if seen[x] {
+						continue
+					}
+					seen[x] = true
+					for _, ins := range x.Instrs {
+						if ia, ok := ins.(*ssa.IndexAddr); ok {
+							p := vpath(ia.X)
+							if strings.HasSuffix(p, "tmDefAct") || strings.HasSuffix(p, "tmDefGoto") {
+								reads = true
+							}
+						}
+					}
+					// follow unconditional jumps only: the default must be read on this edge itself
+					if len(x.Succs) == 1 && len(x.Instrs) <= 2 {
+						work = append(work, x.Succs[0])
+					}
+				}
+				if reads {
+					c.Ok(rule, key, bo.Pos(), "when tmCheck does not confirm the cell, the row's default (tmDefAct/tmDefGoto) is used")
+				} else {
+					c.Bad(rule, key, bo.Pos(), "when tmCheck does not confirm the cell, %s does not read the row's default: every transition that Optimize folded into the default (shifts included) is lost at this site", f.Name())
+				}
+			}
+		}
+	}
+	if n < 6 {
+		c.add(rule, "count:", token.NoPos, CountDropped, true, "only %d owner tests (tmCheck[pos] == x) found in the generated parsers", n)
+	}
+}
